@@ -251,3 +251,61 @@ def campaign(binp, config, cases, tag, nvecs=2, nshards=8, keep=False, faults=Fa
     return {"viols": viols, "crashes": crashes, "nondet": nondet, "events": events, "header": header,
             "fault_runs": sum(r.get("fault_runs", 0) for r in reps),
             "nodes": total_nodes, "t_replay": round(t1 - t0, 1), "t_validate": round(t2 - t1, 1)}
+
+
+def random_campaign(binp, config, tag, nvecs, seed, traces, steps, maxlen):
+    """direction B: `traces` long random histories on one (binary, config), each a chain of events judged by TLC"""
+    os.makedirs(WORK, exist_ok=True)
+    outs = [os.path.join(WORK, "rnd-%s.%d" % (tag, k)) for k in range(traces)]
+    t0 = time.time()
+    def one(k):
+        cmd = [binp, "random", "--config", config, "--seed", str(seed * 1000 + k + 1), "--steps", str(steps), "--maxlen", str(maxlen),
+               "--nvecs", str(nvecs), "--out", outs[k]]
+        r = subprocess.run(cmd, stdout=subprocess.PIPE, stderr=subprocess.STDOUT, text=True)
+        last = ""
+        try:
+            lines = [l for l in open(outs[k] + ".run").read().split("\n") if l]
+            last = lines[-1] if lines else ""
+        except FileNotFoundError:
+            pass
+        if r.returncode == 0 and last.startswith("DONE"):
+            return {"nodes": steps, "crash": None}
+        if r.returncode == 3:
+            raise ToolError("harness driver error: " + r.stdout[-1000:])
+        return {"nodes": 0, "crash": {"case": int(last) if last.isdigit() else 0, "rc": r.returncode, "out": r.stdout[-300:], "trace": k}}
+    with ThreadPoolExecutor(max_workers=min(8, traces)) as ex:
+        reps = list(ex.map(one, range(traces)))
+    t1 = time.time()
+    with ThreadPoolExecutor(max_workers=min(8, traces)) as ex:
+        vals = list(ex.map(lambda k: ([], 0) if reps[k]["crash"] else validate_shard(outs[k], nvecs, steps), range(traces)))
+    t2 = time.time()
+    viols, events, paths, header, crashes = [], {}, {}, None, []
+    for k in range(traces):
+        acts = []
+        want = {v["node"] for v in vals[k][0]}
+        crash_at = reps[k]["crash"]["case"] if reps[k]["crash"] else None
+        if want or crash_at is not None or header is None:
+            try:
+                with open(outs[k]) as f:
+                    for i, line in enumerate(f):
+                        if i == 0:
+                            header = header or json.loads(line); continue
+                        if not (want or crash_at is not None):
+                            break
+                        e = json.loads(line)
+                        acts.append(e["act"])
+                        if e["id"] in want:
+                            key = (k, e["id"])
+                            events[key] = e; paths[key] = list(acts)
+            except FileNotFoundError:
+                pass
+        for v in vals[k][0]:
+            viols.append({"node": (k, v["node"]), "viol": v["viol"]})
+        if reps[k]["crash"]:
+            c = dict(reps[k]["crash"]); c["path"] = acts[:c["case"]] if acts else []
+            crashes.append(c)
+        for f in (outs[k], outs[k] + ".run"):
+            try: os.remove(f)
+            except FileNotFoundError: pass
+    return {"viols": viols, "events": events, "paths": paths, "header": header, "crashes": crashes, "nodes": sum(r["nodes"] for r in reps),
+            "t_replay": round(t1 - t0, 1), "t_validate": round(t2 - t1, 1)}
